@@ -103,7 +103,11 @@ func cleanupFilePos(tfile *token.File, cl engine.Changelog, comments []*ast.Comm
 			continue
 		}
 
-		for i := tfile.Line(dr.Start); i < tfile.Line(dr.End); i++ {
+		// MergeLine needs physical line numbers: tfile.Line would report
+		// the numbers set by //line directives in the file.
+		startLine := tfile.PositionFor(dr.Start, false /* adjusted */).Line
+		endLine := tfile.PositionFor(dr.End, false /* adjusted */).Line
+		for i := startLine; i < endLine; i++ {
 			if i > 0 {
 				linesToDelete[i] = struct{}{}
 			}
